@@ -26,7 +26,7 @@ from vcheck import fmt_q, fmt_vec, fmt_crs, split_top
 import gen
 from props.common import diff_run, oracle_run, account
 
-DRIVERS = ["sched", "matops_block"]
+DRIVERS = ["sched", "matops_block", "hier_threads"]
 MODEL = "sched"
 RULE = ("cases derived from VERIF_SEED by tools/props/C09.py; distinct = distinct (op, payload); non-trivial = "
         "schedule dumps with at least two levels or a level split over >= 2 threads, sweeps/kernels with a non-zero result")
@@ -753,4 +753,176 @@ def run(ctx, cases_override=None):
                 if o != ref:
                     fails.append(dict(kind="counterexample", case=l, impl=o, model=ref, op="bm.product", size=len(l), case_lines=bl,
                                       theorem="C09: block-valued matrix product identical for every thread count"))
+    fails += hier_threads_stage(ctx, cases_override)
     return fails
+
+
+# ------------------------------------------------------------------ S7: whole hierarchies at every thread count
+# Driver harness/drv_hier_threads.cpp.  One process per thread count (OMP_NUM_THREADS in the environment), the
+# hierarchy is built by amg's own constructor, every level is dumped in storage order, apply() and cycle() are run.
+HT_NTS_Q = [1, 2, 4, 16, 17, 32]
+HT_NTS_T = [1, 2, 3, 4, 5, 8, 12, 16, 17, 20, 24, 32]
+HT_COARSENINGS = ["smoothed_aggregation", "aggregation", "ruge_stuben", "smoothed_aggr_emin"]
+HT_FILL = ["00", "ff", "rand", "a5", "5a", "rand", "3c", "c3"]      # VQ_POISON_FILL, different for neighbouring thread counts
+HT_OPS = ("ht.", "d.ht.", "htb.")
+
+def ht_cfg(r, n, coarsening, exact_small=True, rich=False):
+    ce = r.choice([1, 2, 3, max(1, n // 6)])
+    cprm = dict(eps_strong=fmt_q(gen.f32(F(r.choice(["2/25", "2/25", "1/4", "1/8", "0", "1/16"])))), relax="-", over_interp="-",
+                do_trunc="-", eps_trunc="-")
+    if coarsening == "aggregation": cprm["over_interp"] = r.choice(["-", "3/2", "2", "5/4"])
+    if coarsening == "smoothed_aggregation": cprm["relax"] = r.choice(["-", "-", "1", "3/4", "3/2"])
+    if coarsening == "ruge_stuben":
+        cprm["do_trunc"] = r.choice(["-", "1", "0"]); cprm["eps_trunc"] = r.choice(["-", "1/4", "1/8"])
+        cprm["eps_strong"] = fmt_q(gen.f32(F(r.choice(["1/4", "1/4", "1/2", "1/8"]))))
+    # exact rationals: the size of the numbers grows with every smoothing step and every level, so deep hierarchies get a
+    # plain V(1,1) / V(1,0) / V(0,1) cycle and W-cycles, two smoothing steps, two pre-cycles go with at most two levels
+    ml = r.choice([4294967295, 4294967295, 3, 3, 2]) if exact_small else r.choice([4294967295, 3, 3, 3, 2] if rich else [3, 3, 3, 2])
+    if ml == 2 or rich:      # rich: double values only
+        cyc = [r.choice([1, 1, 2, 0]), r.choice([1, 1, 0]), r.choice([1, 1, 2]), r.choice([1, 1, 2])]
+    else:
+        cyc = [r.choice([1, 1, 0]), r.choice([1, 1, 0]), 1, 1]
+        if cyc[0] == 0 and cyc[1] == 0: cyc[1] = 1
+    if coarsening == "smoothed_aggr_emin" and not rich and ml > 2: ml = 3 if n <= 12 else 2
+    if not rich and n >= 40 and ml > 2: ml = 2
+    cfg = [ce, r.choice([1, 1, 1, 0]), ml] + cyc
+    return " ".join(str(x) for x in cfg) + " " + " ".join(cprm[k] for k in ("eps_strong", "relax", "over_interp", "do_trunc", "eps_trunc"))
+
+def hier_cases(tier, seed):
+    """own generator (the cases of the other stages do not move).  ids h<k>: exact, hd<k>: double, hb<k>: 2x2 blocks"""
+    import props.amg_block as ab
+    r = random.Random(seed * 1000 + 919)
+    out = []
+    nsc = 10 if tier == "quick" else 40          # per coarsening
+    k = 0
+    for it in range(nsc):
+        for co in HT_COARSENINGS:
+            n = r.choice([9, 12, 16, 20, 25, 30, 36] + ([49] if co != "ruge_stuben" else []) + ([49, 64, 81] if tier == "thorough" else []))
+            if co == "smoothed_aggr_emin": n = r.choice([9, 12, 16, 20])     # its P has the longest rationals of the four
+            u = r.random()
+            if u < 0.45: rows = gen.spd_mmatrix(r, n, kind="grid")
+            elif u < 0.75: rows = gen.spd_mmatrix(r, n, kind=r.choice(["graph", "graph", "path"]))
+            elif u < 0.9: rows = gen.nonsym_dd(r, n, density=min(0.4, 3.5 / n))
+            else: rows = gen.convdiff(r, n, two_d=True)
+            # values of different size: strength of connection and truncation decisions are not all alike
+            # (dyadic factors for the larger systems: the exact rationals of a three-level hierarchy stay affordable)
+            mult = [F(1), F(1), F(1, 3), F(7, 10), F(2)] if n < 30 else [F(1), F(1), F(1, 2), F(2), F(1, 4)]
+            rows = [[(c, v * r.choice(mult) if c != i else v * 2) for c, v in rw] for i, rw in enumerate(rows)]
+            if r.random() < 0.4: rows = gen.shuffle_rows(r, rows)       # amg(const Matrix&) copies and sorts
+            tail = "%s %s %s %s" % (ht_cfg(r, n, co, n <= 20), fmt_crs(n, n, rows), fmt_vec(gen.rvec(r, n, nz=True)), fmt_vec(gen.rvec(r, n)))
+            out.append("h%d ht.%s %s" % (k, co, tail))
+            # double: not smoothed_aggr_emin -- its omega is accumulated in an unordered critical section, which the property
+            # lists under 'equal up to summation-order rounding' (in exact arithmetic it is compared like the others)
+            if co != "smoothed_aggr_emin": out.append("hd%d d.ht.%s %s" % (k, co, tail))
+            k += 1
+    # larger systems in double only (cheap): more levels, more rows per thread at 16 / 32 threads
+    for it in range(6 if tier == "quick" else 24):
+        for co in HT_COARSENINGS[:3]:
+            n = r.choice([100, 144, 225, 400])
+            rows = gen.spd_mmatrix(r, n, kind=r.choice(["grid", "grid", "graph"])) if r.random() < 0.8 else gen.convdiff(r, n, two_d=True)
+            rows = [[(c, v * r.choice([F(1), F(1), F(1, 3), F(7, 10)]) if c != i else v * 2) for c, v in rw] for i, rw in enumerate(rows)]
+            out.append("hd%d d.ht.%s %s %s %s %s" % (k, co, ht_cfg(r, n, co, rich=True), fmt_crs(n, n, rows), fmt_vec(gen.rvec(r, n, nz=True)), fmt_vec(gen.rvec(r, n))))
+            k += 1
+    for it in range(8 if tier == "quick" else 32):
+        for var, co in (("sa", "smoothed_aggregation"), ("agg", "aggregation")):
+            nb = r.choice([5, 6, 8, 9, 10, 12, 16])
+            rows = gen.spd_block(r, 2, nb, incomplete=(r.random() < 0.6), kron=(r.random() < 0.15))
+            brows = ab.to_blocks(rows, 2)
+            if r.random() < 0.4: brows = [r.sample(rw, len(rw)) for rw in brows]
+            out.append("hb%d htb.%s %s %s %s %s" % (k, var, ht_cfg(r, nb, co, nb <= 8), ab.fmt_bcrs(nb, nb, brows),
+                                                   fmt_vec(gen.rvec(r, 2 * nb, nz=True)), fmt_vec(gen.rvec(r, 2 * nb))))
+            k += 1
+    return out
+
+def ht_first_difference(a, b):
+    """where two outputs of drv_hier_threads differ (for the message only)"""
+    if a is None or b is None: return "no output"
+    sa, sb = a.split(" ; "), b.split(" ; ")
+    if len(sa) != len(sb) or len(sa) != 3: return "outcome %s vs %s" % (a[:40], b[:40])
+    if sa[0] != sb[0]:
+        ia, ib = split_top(sa[0]), split_top(sb[0])
+        if ia[:2] != ib[:2]: return "number of levels %s vs %s" % (ia[1] if len(ia) > 1 else "?", ib[1] if len(ib) > 1 else "?")
+        lvl = -1; names = []
+        for j in range(2, min(len(ia), len(ib))):
+            if ia[j] in ("M", "L", "S") and not ia[j].startswith("{"):
+                lvl += 1; names = {"M": ["A", "P", "R"], "L": ["A"], "S": ["A"]}[ia[j]]; pos = 0
+                if ia[j] != ib[j]: return "kind of level %d (%s vs %s)" % (lvl, ia[j], ib[j])
+                continue
+            if ia[j] != ib[j]:
+                ra, rb = ia[j].split("|"), ib[j].split("|")
+                what = names[pos] if pos < len(names) else "?"
+                if ra[0] != rb[0]: return "level %d, shape of %s (%s vs %s)" % (lvl, what, ra[0].strip("{ "), rb[0].strip("{ "))
+                row = next((q - 1 for q in range(1, min(len(ra), len(rb))) if ra[q] != rb[q]), -1)
+                nza = sum(len(x.split()) for x in ra[1:]); nzb = sum(len(x.split()) for x in rb[1:])
+                return "level %d, matrix %s, row %d (stored entries %d vs %d)" % (lvl, what, row, nza, nzb)
+            pos += 1
+        return "hierarchy dump"
+    return "result of apply()" if sa[1] != sb[1] else "result of cycle()"
+
+def hier_threads_stage(ctx, cases_override=None):
+    """C09 'bitwise identical ... transfer operators and their hierarchies': amg<builtin<V>, C, spai0> hierarchies for
+    C in {smoothed_aggregation, aggregation, ruge_stuben, smoothed_aggr_emin}, V = vq::Q (exact) and double (bit patterns),
+    and V = static_matrix<vq::Q,2,2> for smoothed aggregation / aggregation, built in a process started with
+    OMP_NUM_THREADS = 1, 2, 4, 16, 17, 32 (thorough: 12 counts).  All levels (A, P, R in storage order, the matrix handed to
+    the direct solver) and the results of apply() and cycle() must be identical for every thread count.  Exact values: every
+    count against 1 thread (in particular across the 16 -> 17 switch of backend::product from spgemm_saad to spgemm_rmerge).
+    double: within 1..16 and within 17..32 (across the switch the summation order of the Galerkin products differs: known
+    finding C09-product-saad-rmerge, and a rounding difference may flip a later strength-of-connection decision)."""
+    tier = ctx["tier"]
+    if cases_override:
+        lines = [l for l in cases_override if l.split(" ", 2)[1].startswith(HT_OPS)]
+        if not lines: return []
+    else:
+        lines = hier_cases(tier, ctx["seed"])
+    nts = HT_NTS_Q if tier == "quick" else HT_NTS_T
+    exe = ctx["cpp"]["hier_threads"]
+    st = ctx["stats"]
+    outs = {}
+    for k, nt in enumerate(nts):
+        env = dict(ENV); env.update({"OMP_NUM_THREADS": str(nt), "VQ_POISON_FILL": HT_FILL[k % len(HT_FILL)]})
+        sh = 8 if nt <= 2 else (4 if nt <= 4 else 2)
+        o = ctx["run_driver"](exe, lines, env_extra=env, shards=sh, timeout=900)
+        for _ in range(3):      # a crashing case takes the rest of its shard with it: re-run what got no answer
+            todo = [l for l in lines if l.split(" ", 1)[0] not in o]
+            if not todo: break
+            o.update(ctx["run_driver"](exe, todo, env_extra=env, shards=sh, timeout=900))
+        outs[nt] = o
+    fails = []
+    def fail(l, nt, ref_nt, got, want, why):
+        st["mismatches"] += 1
+        op = l.split(" ", 2)[1]
+        fails.append(dict(kind="counterexample", case=l, impl=got, model=want, op=op, size=len(l), stage="hierarchy-threads", case_lines=[l],
+                          env={"OMP_NUM_THREADS": str(nt)}, threads=nt, reference_threads=ref_nt,
+                          theorem="C09: amg hierarchy (all levels, storage order) and apply()/cycle() identical for every thread count (%s): "
+                                  "OMP_NUM_THREADS=%d vs %d -- %s" % ("bit patterns, double" if op.startswith("d.") else "exact arithmetic", nt, ref_nt, why)))
+    for l in lines:
+        cid, op = l.split(" ", 2)[:2]
+        body = {}
+        for nt in nts:
+            o = outs[nt].get(cid)
+            st["evaluations"] += 1; st["by_op"][op + "@threads"] = st["by_op"].get(op + "@threads", 0) + 1
+            if o is None or o.startswith(("CRASH", "UNSUPPORTED")):
+                fail(l, nt, nt, o, None, "the driver crashed or gave no answer"); body[nt] = None; continue
+            if o.startswith("EXC"):
+                body[nt] = o; continue          # an exception is a regular outcome: the same one at every thread count
+            hd, _, rest = o.partition(" ")
+            if hd != "nt=%d" % nt:
+                fail(l, nt, nt, o, "nt=%d ..." % nt, "the driver does not run with the thread count asked for"); body[nt] = None; continue
+            body[nt] = rest
+        h = hashlib_sha(op + " " + l.split(" ", 2)[2])
+        if h not in st["distinct"]:
+            st["distinct"].add(h)
+            b1 = body.get(nts[0])
+            if b1 and b1.startswith("D ") and int(b1.split(" ", 2)[1]) >= 2: st["nontrivial"] += 1
+        groups = [nts] if not op.startswith("d.") else [[nt for nt in nts if nt <= 16], [nt for nt in nts if nt > 16]]
+        for g in groups:
+            g = [nt for nt in g if body.get(nt) is not None]
+            for nt in g[1:]:
+                st["oracle_checks"] += 1
+                if body[nt] != body[g[0]]:
+                    fail(l, nt, g[0], body[nt], body[g[0]], "first difference: " + ht_first_difference(body[nt], body[g[0]]))
+    return fails
+
+def hashlib_sha(s):
+    import hashlib
+    return hashlib.sha256(s.encode()).hexdigest()
